@@ -10,7 +10,7 @@ the model's fire-successors the real object moved to.
 """
 import hashlib, json, os, random, time
 from . import tlc
-from .store_driver import RealStore
+from .store_driver import RealStore, random_history
 
 FIRE_OPS = ("fireitem", "firetimer", "firetrip", "fireact")
 
@@ -80,11 +80,12 @@ def init_key(graph):
 
 
 class Tour:
-    def __init__(self, graph, cfg, seed=0, max_trace_len=250, nprocs=2, via_edge=True, budget_s=None):
+    def __init__(self, graph, cfg, seed=0, max_trace_len=250, nprocs=2, via_edge=True, budget_s=None, alpha=None):
         self.g = graph
         self.cfg = cfg
         self.kind = cfg["kind"]
         self.rng = random.Random(seed)
+        self.alpha = alpha or {"prios": (0,), "filters": (1,), "tags": (0,), "delays": (0,)}
         self.max_len = max_trace_len
         self.nprocs = nprocs
         self.via_edge = via_edge
@@ -165,10 +166,20 @@ class Tour:
         return None
 
     # --- execution --------------------------------------------------------
+    def _off_model(self, n=40):
+        """The real object left the model (drift).  Keep driving it blindly for a while so that the
+        consequences of the deviation are in the trace that leg C judges."""
+        try:
+            self.trace["ev"].extend(random_history(self.real, self.rng, n, prios=self.alpha["prios"],
+                                                   filters=self.alpha["filters"], tags=self.alpha["tags"],
+                                                   delays=self.alpha["delays"], nprocs=self.nprocs, max_live=4))
+        except Exception as ex:      # the mutated object may be beyond repair; the trace so far stands
+            self.trace["src"] = "tlc-graph+offmodel-crash:%s" % type(ex).__name__
+
     def _fresh(self):
         self.real = RealStore(self.cfg, nprocs=self.nprocs, via_edge=self.via_edge)
         self.cur = self.init
-        self.trace = {"meta": {"engine": "store_walk", "cfg": self.cfg, "src": "tlc-graph"}, "ev": []}
+        self.trace = {"cfg": self.cfg, "src": "tlc-graph", "ev": [self.real.settle()]}   # initial observation
         self.traces.append(self.trace)
 
     def _check_proj(self, what):
@@ -193,15 +204,14 @@ class Tour:
         op = c["op"]
         self.steps += 1
         if op == "tick":
+            self.trace["ev"].append(self.real.settle())     # the instant is over: end-of-instant observation
             ev = self.real.tick()
-            ev["i"] = len(self.trace["ev"])
             self.trace["ev"].append(ev)
             self._mark(k, i)
             self.cur = row["nk"] if row["nk"] is not None else k
             return self._check_proj("tick")
         if op in FIRE_OPS:
             ev, changed = self.real.fire()
-            ev["i"] = len(self.trace["ev"])
             self.trace["ev"].append(ev)
             proj = key_proj(self.real.project(), self.kind)
             # which fire row did the implementation take?
@@ -229,13 +239,10 @@ class Tour:
                 self.dead_rows.add((k, i))
             self._mark(k, j)
             r2 = self.g[k]["succ"][j]
-            ev["model_op"] = r2["c"]["op"]
             self.cur = r2["nk"] if r2["nk"] is not None else k
             return True
         # API call
         ev, res = self.real.call(c)
-        ev["i"] = len(self.trace["ev"])
-        ev["wf_model"] = row["wf"]
         self.trace["ev"].append(ev)
         self._mark(k, i)
         exp = row["r"]
@@ -260,7 +267,7 @@ class Tour:
             if self.budget_s is not None and time.time() - t0 > self.budget_s:
                 break
             if len(self.trace["ev"]) >= self.max_len:
-                self.trace["ev"].append(dict(self.real.settle(), i=len(self.trace["ev"])))
+                self.trace["ev"].append(self.real.settle())
                 self._fresh()
             if self.unvis[self.cur]:
                 # prefer ill-formed / self-loop rows first (cheap), then a random state-changing one
@@ -268,6 +275,7 @@ class Tour:
                 loops = [i for i in cand if self.g[self.cur]["succ"][i]["nk"] is None]
                 i = loops[0] if loops else self.rng.choice(cand)
                 if not self._exec_row(i):
+                    self._off_model()
                     self._fresh()
                 continue
             path = self._path_to_unvisited(self.cur)
@@ -286,8 +294,9 @@ class Tour:
                 if len(self.trace["ev"]) >= self.max_len + 50:
                     break
             if not ok:
+                self._off_model()
                 self._fresh()
-        self.trace["ev"].append(dict(self.real.settle(), i=len(self.trace["ev"])))
+        self.trace["ev"].append(self.real.settle())
         self.wall = time.time() - t0
         return self
 
